@@ -553,7 +553,15 @@ pub fn run_parent(prop: &'static dyn Property, tier: Tier, seed: u64) -> Outcome
         .and_then(|p| std::fs::read_to_string(p).ok())
         .and_then(|s| serde_json::from_str(&s).ok());
 
+    // ---- optional statistics of a run of the same check in a second build configuration
+    // (C10 thorough: harness + allsorts rebuilt against flate2's pure-Rust backend)
+    let extra: Option<serde_json::Value> = std::env::var("VERIF_EXTRA_STATS")
+        .ok()
+        .and_then(|p| std::fs::read_to_string(p).ok())
+        .and_then(|s| serde_json::from_str(&s).ok());
+
     let wall = t0.elapsed().as_secs_f64();
+    let backend = if cfg!(feature = "rustz") && !cfg!(feature = "zlib") { "flate2 rust_backend (miniz_oxide)" } else { "flate2 zlib" };
     let mut coverage = serde_json::json!({
         "evaluations": evaluations,
         "distinct_nontrivial": distinct,
@@ -567,8 +575,11 @@ pub fn run_parent(prop: &'static dyn Property, tier: Tier, seed: u64) -> Outcome
         "shards": NSHARDS,
         "shards_reported": reports.len(),
         "notes": notes,
-        "build": "release, opt-level=2, debug-assertions=on, overflow-checks=on, allsorts features: default + verif-hooks + prince",
+        "build": format!("release, opt-level=2, debug-assertions=on, overflow-checks=on, allsorts features: outline + {} + verif-hooks + prince", backend),
     });
+    if let Some(x) = extra {
+        coverage["second_build"] = x;
+    }
     if let Some(f) = fuzz {
         coverage["fuzz"] = f;
     }
